@@ -94,7 +94,8 @@ Proof.
   intros Hih (Hok&Hpow&Hkeys). pose proof (tinv_init ih ivs Hpow) as HT.
   split; [|exact HT]. split; [apply INV_init; assumption|]. split; [exact (proj2 HT)|].
   split; [reflexivity|]. split; [repeat split; intros t p []|].
-  split; [split; intros H; contradiction|]. split; [intros p [[]|[]]|].
+  split; [split; intros H; contradiction|].
+  split; [split; [intros p [[]|[]]|split; apply yview_fresh; reflexivity]|].
   exists ih, 0, 0, 0. unfold stores_of, init_state. cbn.
   split; [reflexivity|]. split; [left; repeat split|].
   split; [intros h x cp []|]. split; [intros h x cp []|]. split; [intros h r e E; discriminate|intros x []].
